@@ -498,7 +498,9 @@ class GriffeLoader:
                 except CyclicAliasError as error:
                     logger.debug(str(error))
                 else:
-                    logger.debug("Alias %s was resolved to %s", member.path, member.final_target.path)  # type: ignore[union-attr]
+                    # Only the first link was resolved: following the whole chain can still fail.
+                    with suppress(AliasResolutionError, CyclicAliasError):
+                        logger.debug("Alias %s was resolved to %s", member.path, member.final_target.path)  # type: ignore[union-attr]
                     resolved.add(member.path)
 
             # Recurse into unseen modules and classes.
